@@ -28,7 +28,13 @@ Small == {
     [pts |-> <<P(0,0), P(1,0), P(1,1), P(0,1)>>, fc |-> TRUE],
     [pts |-> <<P(0,0), P(2,0), P(2,3)>>, fc |-> FALSE],
     [pts |-> <<P(0,0), P(4,0), P(4,3)>>, fc |-> TRUE] }
-Roots == IF RootSet = "small" THEN Small ELSE Curated
+\* tolerance variant: long edges, tolerance = one lattice unit, requests on the half lattice (i.e. differing by
+\* half, exactly one, and one and a half tolerances); only depth-1 behaviours (the free zone would make states diverge)
+TolRoots == { [pts |-> <<P(0,0), P(4,0), P(4,4), P(0,4)>>, fc |-> TRUE, tolU |-> 1],
+              [pts |-> <<P(0,0), P(8,0), P(8,6)>>, fc |-> FALSE, tolU |-> 1],
+              [pts |-> <<P(0,0), P(3,4), P(3,8)>>, fc |-> FALSE, tolU |-> 1] }
+WithTol(S) == {[pts |-> x.pts, fc |-> x.fc, tolU |-> 0] : x \in S}
+Roots == IF RootSet = "small" THEN WithTol(Small) \cup TolRoots ELSE IF RootSet = "tol" THEN TolRoots ELSE WithTol(Curated) \cup TolRoots
 
 V == Built(root.pts, 0, root.fc, 2)
 RC == IsClosedV(V, 0, 2)
@@ -40,7 +46,7 @@ Ls == -1..(d.T + 1)
 Pick(S) == IF Sim THEN {RandomElement(S)} ELSE S
 
 Init == /\ root \in Roots /\ d = WholeRoot(Built(root.pts, 0, root.fc, 2)) /\ phase = "run"
-        /\ hist = <<[m |-> "curve", op |-> "root", pts |-> root.pts, fc |-> root.fc, sc |-> 0, tolU |-> 0]>>
+        /\ hist = <<[m |-> "curve", op |-> "root", pts |-> root.pts, fc |-> root.fc, sc |-> 0, tolU |-> root.tolU]>>
 
 \* a derived curve that is closed only because an open root touches itself is left out of the histories
 Tame(nd) == nd = NoCurve \/ (DClosed(V, RC, nd) => (RC /\ nd.T = RootLen2(V)))
@@ -76,12 +82,12 @@ TrimBack == \E x \in Pick(Ls) :
     Advance([m |-> "curve", op |-> "trim_back", x |-> Enc(x)], DBetween(V, RC, d, 0, d.T - x))
 Reverse == Advance([m |-> "curve", op |-> "reversed"], DReversed(d))
 
-Step == /\ phase = "run" /\ Len(hist) <= MaxDepth
+Step == /\ phase = "run" /\ Len(hist) <= (IF root.tolU > 0 THEN 1 ELSE MaxDepth)
         /\ IF Sim THEN LET k == RandomElement(1..9) IN
                           CASE k \in {1, 2} -> Between [] k = 3 -> ByControl [] k = 4 -> SplitOpen [] k = 5 -> SplitClosed
                             [] k = 6 -> TrimFront [] k = 7 -> TrimBack [] k = 8 -> Reverse [] OTHER -> Between
            ELSE (Between \/ ByControl \/ SplitOpen \/ SplitClosed \/ TrimFront \/ TrimBack \/ Reverse)
-Stop == /\ phase = "run" /\ Len(hist) >= 2 /\ (Sim => Len(hist) > MaxDepth) /\ phase' = "done" /\ UNCHANGED <<root, d, hist>>
+Stop == /\ phase = "run" /\ Len(hist) >= 2 /\ (Sim => Len(hist) > (IF root.tolU > 0 THEN 1 ELSE MaxDepth)) /\ phase' = "done" /\ UNCHANGED <<root, d, hist>>
 Next == Step \/ Stop
 Spec == Init /\ [][Next]_vars
 
